@@ -27,6 +27,8 @@ pub struct Case {
     maxlen: Option<(u16, u16)>,
     /// TargetName of the CHALLENGE (None: "SRV"); an empty name puts the target information first in the payload
     target_name: Option<String>,
+    /// payload layout of the CHALLENGE (vref::ntlm::ServerCfg::layout)
+    layout: u8,
 }
 
 pub struct C15 {
@@ -56,9 +58,9 @@ pub fn string_alphabet() -> Vec<String> {
             }
         }
     }
-    v.extend(["AbC".to_string(), "ADMIN".to_string(), "Administrator".to_string(), "dom.example".to_string(), "Ünï".to_string(), "p@ss w0rd!".to_string(), "\u{10400}x".to_string()]);
+    v.extend(["AbC".to_string(), "ADMIN".to_string(), "Administrator".to_string(), "dom.example".to_string(), "Ünï".to_string(), "p@ss w0rd!".to_string(), "\u{10400}x".to_string(), "alice@corp.example".to_string(), "hunter2\n".to_string(), "pass phrase\r\n".to_string(), "\n".to_string(), "x\r".to_string(), " lead and trail ".to_string(), "tab\there".to_string()]);
     // the first and last code point of every UTF-8 / UTF-16 encoding length, alone and between ASCII letters
-    for cp in ['\u{1}', '\u{7F}', '\u{80}', '\u{7FF}', '\u{800}', '\u{D7FF}', '\u{E000}', '\u{FFFD}', '\u{FFFF}', '\u{10000}', '\u{10001}', '\u{FFFFF}', '\u{100000}', '\u{10FFFF}'] {
+    for cp in ['\u{0}', '\u{1}', '\u{7F}', '\u{80}', '\u{7FF}', '\u{800}', '\u{D7FF}', '\u{E000}', '\u{FFFD}', '\u{FFFF}', '\u{10000}', '\u{10001}', '\u{FFFFF}', '\u{100000}', '\u{10FFFF}'] {
         v.push(cp.to_string());
         v.push(format!("a{}b", cp));
     }
@@ -89,7 +91,7 @@ impl Prop for C15 {
     fn prepare(&mut self, tier: Tier) -> Result<(), String> {
         let strings = string_alphabet();
         let default_av: Vec<(u16, usize)> = vec![(rn::AV_NB_DOMAIN, 6), (rn::AV_NB_COMPUTER, 6), (rn::AV_DNS_DOMAIN, 18), (rn::AV_DNS_COMPUTER, 18), (rn::AV_TIMESTAMP, 8)];
-        let base = Case { domain: "DOM".into(), user: "user".into(), password: "S3cr3t-pässwörd".into(), via_hash: false, challenge: CHALLENGES[2], nonce: 2, av: default_av.clone(), flags: rn::DEFAULT_FLAGS, block: "base", earlier: None, maxlen: None, target_name: None };
+        let base = Case { domain: "DOM".into(), user: "user".into(), password: "S3cr3t-pässwörd".into(), via_hash: false, challenge: CHALLENGES[2], nonce: 2, av: default_av.clone(), flags: rn::DEFAULT_FLAGS, block: "base", earlier: None, maxlen: None, target_name: None, layout: 0 };
         let mut cs = vec![base.clone()];
         // strings: one dimension at a time, and all three together; password vs hash
         for s in &strings {
@@ -199,11 +201,16 @@ impl Prop for C15 {
                 for tn in ["", "S", "a-rather-long-target-name.example.org"] {
                     let f = if version { rn::DEFAULT_FLAGS } else { rn::DEFAULT_FLAGS & !rn::F_VERSION };
                     cs.push(Case { flags: f, via_hash, target_name: Some(tn.to_string()), block: "target-name", ..base.clone() });
+                    // other legal payload layouts: info before name, bytes no field refers to after / before the fields
+                    for layout in 1..=3u8 {
+                        cs.push(Case { flags: f, via_hash, target_name: Some(tn.to_string()), layout, block: "payload-layout", ..base.clone() });
+                    }
                 }
             }
         }
-        // OEM sessions with names that are not upper case already (ASCII only)
-        for (domain, user) in [("Dom", "User"), ("dom", "user"), ("DOM", "USER"), ("", "user"), ("contoso.local", "Alice")] {
+        // OEM sessions with names that are not upper case already (ASCII: compared byte for byte; the three non-ASCII
+        // ones: any NUL-free spelling that is not UTF-16, the code page being unspecified)
+        for (domain, user) in [("Dom", "User"), ("dom", "user"), ("DOM", "USER"), ("", "user"), ("contoso.local", "Alice"), ("DOM", "JÉRÔME"), ("DÖM", "USER"), ("日", "日本")] {
             for version in [true, false] {
                 for via_hash in [false, true] {
                     let mut flags = rn::F_REQUEST_TARGET | rn::F_SIGN | rn::F_SEAL | rn::F_NTLM | rn::F_ESS | rn::F_TARGET_INFO | rn::F_128 | rn::F_KEY_EXCH | rn::F_OEM;
@@ -257,12 +264,12 @@ impl Prop for C15 {
         json!({"idx": idx, "case": self.cases[idx as usize]})
     }
     fn rule(&self) -> String {
-        "cases = (domain, user, password | NT hash, server challenge, client nonce pattern, target-info block, negotiate flags). Strings: class^len for class in {a, é, 日, 😀} x len in {0,1,7,8,15,16,17,31,32,64}, every mixed string of <=3 code points over the four classes, the boundary code points of every UTF-8/UTF-16 encoding length (U+1, 7F, 80, 7FF, 800, D7FF, E000, FFFD, FFFF, 10000, 10001, FFFFF, 100000, 10FFFF) alone and between letters, a few practical names; varied one at a time and jointly (full user x domain and password x domain products in thorough); 4 challenges x 3 nonce patterns; every subset of the 9 optional AV ids with the timestamp at first/middle/last (every) position; every permutation of <=4 pairs including the timestamp; value lengths {0,2,16,510}; target information of 30000..65491 bytes (the largest the 16-bit NT response length can echo) with short and kilobyte-long names; OEM sessions with lower / mixed / upper case ASCII names; both character-set bits set; empty / 1-character / long target names (the target information then starts the payload); TargetInfo / TargetName MaxLen fields set to 0, 1, 8, 0x7FFF, 0xFFFF while Len stays honest; flags with/without VERSION and UNICODE and neutral bits; and a second handshake on the same Ntlm object for every ordered pair of (VERSION, UNICODE) flag sets. Each AUTHENTICATE is verified by the reference MS-NLMP server: field descriptors, NTProofStr, LMv2, key-exchange unwrap, MIC, names; and hash-based == password-based. Non-trivial: every case except the base one.".into()
+        "cases = (domain, user, password | NT hash, server challenge, client nonce pattern, target-info block, negotiate flags). Strings: class^len for class in {a, é, 日, 😀} x len in {0,1,7,8,15,16,17,31,32,64}, every mixed string of <=3 code points over the four classes, the boundary code points of every UTF-8/UTF-16 encoding length (U+1, 7F, 80, 7FF, 800, D7FF, E000, FFFD, FFFF, 10000, 10001, FFFFF, 100000, 10FFFF) alone and between letters, a few practical names; varied one at a time and jointly (full user x domain and password x domain products in thorough); 4 challenges x 3 nonce patterns; every subset of the 9 optional AV ids with the timestamp at first/middle/last (every) position; every permutation of <=4 pairs including the timestamp; value lengths {0,2,16,510}; target information of 30000..65491 bytes (the largest the 16-bit NT response length can echo) with short and kilobyte-long names; OEM sessions with lower / mixed / upper case ASCII names; both character-set bits set; empty / 1-character / long target names (the target information then starts the payload); the target information placed before the target name, followed by 12 bytes that no field refers to, or preceded by an 8-byte gap after the header; TargetInfo / TargetName MaxLen fields set to 0, 1, 8, 0x7FFF, 0xFFFF while Len stays honest; flags with/without VERSION and UNICODE and neutral bits; and a second handshake on the same Ntlm object for every ordered pair of (VERSION, UNICODE) flag sets. Each AUTHENTICATE is verified by the reference MS-NLMP server: field descriptors, NTProofStr, LMv2, key-exchange unwrap, MIC, names; and hash-based == password-based. Non-trivial: every case except the base one.".into()
     }
     fn assumptions(&self) -> Vec<String> {
         vec![
             "user names are restricted to code points whose full (Rust) and simple (Windows) upper-case mappings agree".into(),
-            "the server keeps KEY_EXCH, 128-bit and extended session security negotiated, as this client requests them; OEM encoding only with ASCII names".into(),
+            "the server keeps KEY_EXCH, 128-bit and extended session security negotiated, as this client requests them; OEM encoding is compared byte for byte with ASCII names only; non-ASCII names in an OEM session must merely not be spelled in UTF-16".into(),
             "client nonce / exported session key come from the H1 hook: patterns 00.., FF.., counter".into(),
         ]
     }
@@ -274,11 +281,12 @@ impl Prop for C15 {
             target_name: c.target_name.clone().unwrap_or_else(|| "SRV".into()),
             av_pairs: c.av.iter().map(|(id, len)| (*id, av_value(*id, *len))).collect(),
             maxlen_override: None,
+            layout: c.layout,
         };
         let hash = rn::nt_hash(&c.password);
         let mut ntlm = if c.via_hash { Ntlm::from_hash(c.domain.clone(), c.user.clone(), &hash) } else { Ntlm::new(c.domain.clone(), c.user.clone(), c.password.clone()) };
         if let Some(f1) = c.earlier {
-            let cfg1 = ServerCfg { flags: f1, challenge: [0x5a; 8], target_name: "OTHER".into(), av_pairs: vec![(rn::AV_DNS_DOMAIN, av_value(rn::AV_DNS_DOMAIN, 6)), (rn::AV_TIMESTAMP, av_value(rn::AV_TIMESTAMP, 8))], maxlen_override: None };
+            let cfg1 = ServerCfg { flags: f1, challenge: [0x5a; 8], target_name: "OTHER".into(), av_pairs: vec![(rn::AV_DNS_DOMAIN, av_value(rn::AV_DNS_DOMAIN, 6)), (rn::AV_TIMESTAMP, av_value(rn::AV_TIMESTAMP, 8))], maxlen_override: None, layout: 0 };
             if let Err(e) = ntlm.create_negotiate_message() {
                 return Outcome::fail("error", "negotiate-error", format!("{:?}", e));
             }
@@ -326,7 +334,13 @@ impl Prop for C15 {
                 }
                 // what CredSSP will later send as names must be the same strings in the negotiated encoding
                 let want_user = if c.flags & rn::F_UNICODE != 0 { utf16le(&c.user) } else { c.user.as_bytes().to_vec() };
-                if ntlm.get_user_name() != want_user {
+                let oem_non_ascii = c.flags & rn::F_UNICODE == 0 && !c.user.is_ascii();
+                if oem_non_ascii {
+                    let got = ntlm.get_user_name();
+                    if got.is_empty() || got.contains(&0) || got == utf16le(&c.user) {
+                        return Outcome::fail("mismatch", "get-user-name-encoding", "get_user_name() of an OEM session is a UTF-16 / NUL-bearing string".to_string());
+                    }
+                } else if ntlm.get_user_name() != want_user {
                     return Outcome::fail("mismatch", "get-user-name-encoding", "get_user_name() is not the user in the negotiated encoding".to_string());
                 }
                 let mut o = Outcome::pass(format!("accepted-{}", c.block), idx != 0);
